@@ -618,6 +618,14 @@ def nest(kind, d, base):
     return t
 
 
+def _accepts_bottom(x):
+    if isinstance(x, U.Leaf):
+        return True
+    if isinstance(x, U.Node):
+        return not x.children
+    return isinstance(x, (list, tuple, dict, deque)) and len(x) == 0
+
+
 def run_depth(job, io):
     sys.setrecursionlimit(20000)
     kind = job['node']
@@ -633,6 +641,12 @@ def run_depth(job, io):
         'flatten_pred': lambda t: optree.tree_flatten(t, is_leaf=lambda x: False, **kw),
         'iter_pred': lambda t: list(optree.tree_iter(t, is_leaf=lambda x: False, **kw)),
         'flatten_with_path_nil': lambda t: optree.tree_flatten_with_path(t, none_is_leaf=True, **kw),
+        # a predicate that ACCEPTS what sits at the bottom (empty containers, childless custom nodes, leaves): whether the
+        # depth is checked before or after asking the predicate must not differ between the three traversals
+        'flatten_accept': lambda t: optree.tree_flatten(t, is_leaf=_accepts_bottom, **kw),
+        'flatten_with_path_accept': lambda t: optree.tree_flatten_with_path(t, is_leaf=_accepts_bottom, **kw),
+        'iter_accept': lambda t: list(optree.tree_iter(t, is_leaf=_accepts_bottom, **kw)),
+        'paths_accept': lambda t: optree.tree_paths(t, is_leaf=_accepts_bottom, **kw),
     }
 
     def viol(cls, site, msg):
